@@ -11,7 +11,7 @@ H(a, b) == <<a, b>>
 \* utils.rs: pairs of full chunks, then - if the length is odd - the last hash paired with itself
 Level(hs) == LET m == Len(hs) \div 2
                  pairs == [i \in 1..m |-> H(hs[2 * i - 1], hs[2 * i])]
-             IN IF Len(hs) % 2 = 1 THEN (IF DupOdd THEN Append(pairs, H(hs[Len(hs)], hs[Len(hs)])) ELSE Append(pairs, hs[Len(hs)]))
+             IN IF Len(hs) % 2 = 1 THEN (IF DupOdd THEN Append(pairs, H(hs[Len(hs)], hs[Len(hs)])) ELSE Append(pairs, <<hs[Len(hs)]>>))
                 ELSE pairs
 RECURSIVE Root(_)
 Root(hs) == IF Len(hs) = 1 THEN hs[1] ELSE Root(Level(hs))
